@@ -26,6 +26,35 @@ CLAIMED = {
              "TLC also checks exhaustively (2-bit words, all round functions) that the reversed key order inverts the network.",
         note="Trusted: TLC/SANY, SM4.tla (standard example). Keys/blocks are sampled. arm64 kernels cannot run here and are not covered.",
         ref="6 C05"),
+    "C06": dict(
+        technique="TLA+ SP 800-38D GCM over TLA+ SM4 evaluated by TLC on recorded Seal calls of three implementation paths; solved counter-wrap nonces",
+        text="TLC recomputes ciphertext and tag of every recorded Seal with GCM.tla over SM4.tla (both validated on every run "
+             "by published vectors: GCM-spec GF(2^128) case, RFC 8998 SM4-GCM): plaintext lengths covering every combination "
+             "of the 256/128/64/32/16-byte kernels with and without a tail (thorough: all 0..1100), aad and nonce lengths "
+             "across the 1-way/4-way GHASH thresholds (thorough: all), tag sizes 12..16, nonces solved in GF(2^128) so the "
+             "initial counter is 2^32-j, on the fused assembly path, the standard library's generic GCM over the portable "
+             "cipher and generic GCM over the accelerated block.",
+        note="Trusted: TLC/SANY, GCM.tla + SM4.tla (vectors). Keys/data sampled, lengths bounded (1100/300). arm64 glue not executable here.",
+        ref="6 C06"),
+    "C07": dict(
+        technique="TLC trace validation of recorded Open calls against the TLA+ GCM definition (accelerated, with a pure-TLA+ re-validated sample)",
+        text="For sealed messages of every kernel-ladder class, tag sizes 12..16 and several nonce sizes, TLC judges every "
+             "recorded Open - authentic; every tag bit; ciphertext bits (all for short messages, chunk boundaries for long "
+             "ones); aad and nonce bits; aad lengthened/shortened; truncations by 1..tagSize+1; extensions; every length "
+             "shorter than the tag - by recomputing the expected tag from the logged inputs: (plaintext, nil error) exactly "
+             "for authentic inputs, otherwise error, nil slice, no panic. Java accelerators are used for SM4/GHASH after a "
+             "per-run equivalence self-test; a seeded sample of scenarios is re-validated with no accelerator.",
+        note="Trusted: TLC/SANY, GCM.tla/SM4.tla (vectors), the accelerator self-test. Forgeries are structured single modifications.",
+        ref="6 C07"),
+    "C10": dict(
+        technique="TLA+ append/alias memory model (AEADBuf) checked exhaustively by TLC; its shapes concretised and replayed; TLC trace validation of results and input snapshots",
+        text="TLC checks exhaustively (all (len,cap) <= 4, need <= 3, dst unrelated / in-place) that ensure-capacity-then-write "
+             "equals the append contract; every reached shape is concretised for Seal and Open (authentic and forged) over "
+             "message-length classes, each call repeated on the same buffers; TLC requires result = dst || output (output "
+             "from the GCM definition), nonce/aad/input byte-identical after the call (exact in-place overlap excepted) and "
+             "the repeated call to give the same answer; same for sm3 Sum with and without spare capacity.",
+        note="Trusted: TLC/SANY, the specs' vectors, the executor's buffer layout code. Array reuse is recorded, not demanded.",
+        ref="6 C10"),
     "C20": dict(
         technique="TLA+ definitions (Util) + algorithm-as-coded model (CmpNaf) checked exhaustively by TLC at small size; TLC trace validation of recorded calls",
         text="TLC checks exhaustively that the borrow-chain comparison and the signed-window recoding loop as coded "
